@@ -378,9 +378,15 @@ func resolvePkgObjects(ctx *Context, f *ast.File) {
 	for _, spec := range f.Imports {
 		if spec.Name != nil {
 			obj := ctx.TypesInfo.ObjectOf(spec.Name)
+			if _, ok := obj.(*types.PkgName); !ok {
+				continue // Broken import spec in a file with syntax errors
+			}
 			ctx.PkgObjects[obj.(*types.PkgName)] = spec.Name.Name
 		} else {
 			obj := ctx.TypesInfo.Implicits[spec]
+			if _, ok := obj.(*types.PkgName); !ok {
+				continue // Broken import spec in a file with syntax errors
+			}
 			ctx.PkgObjects[obj.(*types.PkgName)] = obj.Name()
 		}
 	}
